@@ -8,14 +8,19 @@ import (
 
 	sdk "github.com/cosmos/cosmos-sdk/types"
 
+	cskeeper "mods.irisnet.org/modules/coinswap/keeper"
 	csmodtypes "mods.irisnet.org/modules/coinswap/types"
 	farmmod "mods.irisnet.org/modules/farm"
+	farmkeeper "mods.irisnet.org/modules/farm/keeper"
 	farmtypes "mods.irisnet.org/modules/farm/types"
 	htlcmod "mods.irisnet.org/modules/htlc"
+	htlckeeper "mods.irisnet.org/modules/htlc/keeper"
 	htlctypes "mods.irisnet.org/modules/htlc/types"
 	svcmod "mods.irisnet.org/modules/service"
+	svckeeper "mods.irisnet.org/modules/service/keeper"
 	svctypes "mods.irisnet.org/modules/service/types"
 	tokenmod "mods.irisnet.org/modules/token"
+	tokenkeeper "mods.irisnet.org/modules/token/keeper"
 	tokenv1 "mods.irisnet.org/modules/token/types/v1"
 
 	"verifharness/hx"
@@ -116,6 +121,30 @@ func updateMsg(mod, authority string, a map[string]string) sdk.Msg {
 	}
 	hx.Fail("unknown module %q", mod)
 	return nil
+}
+
+// directUpdate calls <module>/keeper.NewMsgServerImpl(k).UpdateParams on a cached context that is
+// written only on success; panics are captured.
+func (r *R) directUpdate(ctx sdk.Context, mod string, msg sdk.Msg) hx.Outcome {
+	class, info := hx.Try(ctx, func(c sdk.Context) error {
+		var err error
+		switch m := msg.(type) {
+		case *csmodtypes.MsgUpdateParams:
+			_, err = cskeeper.NewMsgServerImpl(r.env.Coinswap).UpdateParams(c, m)
+		case *farmtypes.MsgUpdateParams:
+			_, err = farmkeeper.NewMsgServerImpl(r.env.Farm).UpdateParams(c, m)
+		case *htlctypes.MsgUpdateParams:
+			_, err = htlckeeper.NewMsgServerImpl(r.env.HTLC).UpdateParams(c, m)
+		case *svctypes.MsgUpdateParams:
+			_, err = svckeeper.NewMsgServerImpl(r.env.Service).UpdateParams(c, m)
+		case *tokenv1.MsgUpdateParams:
+			_, err = tokenkeeper.NewMsgServerImpl(r.env.Token).UpdateParams(c, m)
+		default:
+			hx.Fail("directUpdate: unknown message for %s", mod)
+		}
+		return err
+	})
+	return hx.Outcome{Class: class, Err: info}
 }
 
 var verdictWord = map[string]string{hx.OK: "valid", hx.Rej: "invalid", hx.Panic: "panic"}
@@ -220,7 +249,15 @@ func (r *R) Exec(ctx sdk.Context, line string) (sdk.Context, string) {
 		if a["sender"] != "authority" {
 			auth = symAddr(a["sender"])
 		}
-		out := r.env.Deliver(ctx, updateMsg(mod, auth, a))
+		var out hx.Outcome
+		if a["direct"] == "1" {
+			// the module's message server called directly (as keeper-level callers do), without the
+			// ValidateBasic pre-check that the transaction path and the router add: the handler and
+			// the keeper must not rely on that pre-check to keep an invalid set out of the store
+			out = r.directUpdate(ctx, mod, updateMsg(mod, auth, a))
+		} else {
+			out = r.env.Deliver(ctx, updateMsg(mod, auth, a))
+		}
 		if os.Getenv("VERIF_DEBUG") != "" && out.Class != hx.OK {
 			fmt.Fprintf(os.Stderr, "debug: %s -> %s %s\n", line, out.Class, out.Err)
 		}
